@@ -183,6 +183,15 @@ def struct_programs(tier):
         yield {"calls": [["from", ["t", "t"]], ["select", [A(["aggf", "SUM", f("t", "a"), crit], "sf"), ["agg", "COUNT", "*"]]]]}
         yield {"calls": [["from", ["t", "t"]], ["select", [f("t", "s"), A(["aggf", "MAX", ["arith", "+", f("t", "a"), raw(100)], crit], "mf")]], ["groupby", [f("t", "s")]],
                          ["orderby", [f("t", "s")], "asc"]]}
+    # several keys in one orderby() call with a direction (ties on the first key decide), text values with adjacent quotes
+    for dr in ("desc", "asc"):
+        yield {"calls": [["from", ["t", "t"]], ["select", [f("t", "id"), f("t", "b")]], ["orderby", [f("t", "b"), f("t", "id")], dr]]}
+        yield {"calls": [["from", ["t", "t"]], ["select", [f("t", "id")]], ["orderby", [f("t", "s"), f("t", "b"), f("t", "id")], dr], ["limit", 3]]}
+    Q1 = chr(39)
+    for txt in ("a" + Q1 * 2 + "b", Q1 * 2, "it" + Q1 + "s " + Q1 * 2 + "so" + Q1 * 2, "x" + Q1 * 3 + "y"):
+        yield {"calls": [["into", ["t", "t"]], ["insert_rows", [[raw(9), raw(1), raw(2), raw(txt)]]]]}
+        yield {"calls": [["update", ["t", "t"]], ["set", "s", raw(txt)], ["where", ["cmp", ">", f("t", "id"), raw(2)]]]}
+        yield {"calls": [["from", ["t", "t"]], ["select", [f("t", "id"), A(["lit", txt], "v")]], ["where", ["cmp", "<>", f("t", "s"), raw(txt)]]] + oid}
     # a selected, aliased term re-used as PARTITION BY / ORDER BY key of a window
     g = A(["arith", "+", f("t", "b"), raw(0)], "g")
     o = A(f("t", "a"), "oa")
